@@ -96,10 +96,29 @@ WAVE2 = {
     "check_archive_path": dict(file="helpers.py", qual="check_archive_path", kind="pure",
                                args={"arcname": "str"}, ret="bool", out="HelpersPath"),
 }
+for _n, _c, _r in (("_test_attribute", "test_attribute", "bool"), ("_get_unix_extension", "get_unix_extension", "optint"),
+                   ("archivable", "archivable", "bool"), ("is_directory", "is_directory", "bool"),
+                   ("readonly", "readonly", "bool"), ("is_symlink", "is_symlink", "bool"),
+                   ("is_junction", "is_junction", "bool"), ("is_socket", "is_socket", "bool"),
+                   ("posix_mode", "posix_mode", "optint"), ("st_fmt", "st_fmt", "optint")):
+    # methods of py7zr.ArchiveFile that only look at self._file_info["attributes"]: the attribute word is the
+    # explicit parameter `attrs : option Z` (None = the entry has no attributes)
+    WAVE2["ArchiveFile." + _n] = dict(file="py7zr.py", qual="ArchiveFile." + _n, kind="method", cls="ArchiveFile",
+                                      coqname=_c, selfargs={"attrs": "optint"}, self_props={"attributes": "attrs"},
+                                      args=({"target_bit": "int"} if _n == "_test_attribute" else {}), ret=_r,
+                                      out="AttrDecoders")
 OUT_FILES = {
     # out -> (source description, Require line)
     "HelpersPath": ("py7zr/helpers.py", "From P7 Require Import Prelude PyPrims PyStr Path."),
+    "AttrDecoders": ("py7zr/py7zr.py (class ArchiveFile)", "From P7 Require Import Prelude PyPrims PyStr PyStat."),
 }
+# names of the stat module the translated code reads through hasattr/getattr(stat, NAME): Gallina constants of
+# theories/PyStat.v (existence and values compared with CPython by tools/harness/prims.py)
+STAT_CONSTANTS = ("FILE_ATTRIBUTE_ARCHIVE", "FILE_ATTRIBUTE_DIRECTORY", "FILE_ATTRIBUTE_READONLY",
+                  "FILE_ATTRIBUTE_REPARSE_POINT")
+# stat.F(mode) -> (PyStat.v function, result type); all raise OverflowError outside mode_t
+STAT_FUNCTIONS = {"S_ISLNK": ("py_S_ISLNK", "bool"), "S_ISSOCK": ("py_S_ISSOCK", "bool"), "S_ISDIR": ("py_S_ISDIR", "bool"),
+                  "S_ISREG": ("py_S_ISREG", "bool"), "S_IMODE": ("py_S_IMODE", "int"), "S_IFMT": ("py_S_IFMT", "int")}
 
 
 class FnTr:
@@ -145,6 +164,8 @@ class FnTr:
                 return [], "[" + "; ".join(str(b) for b in v) + "]", "bytes"
             if isinstance(v, str) and self.module is not None:
                 return [], str_lit(v), "str"
+            if v is None and self.module is not None:
+                return [], "None", "nonetype"
             self.refuse(e, "constant")
         if isinstance(e, ast.Name):
             if e.id not in self.ty:
@@ -282,9 +303,16 @@ class FnTr:
         p, v, t = self.expr(e)
         return p, self.truthy(e, v, t)
 
+    def unwrap(self, p, v, t):
+        """an Optional[int] used as an int: TypeError when it is None"""
+        if t == "optint":
+            t1 = self.fresh()
+            return p + ["do %s <- py_unwrap %s;" % (t1, v)], t1, "int"
+        return p, v, t
+
     def binop(self, e):
-        pl, l, tl = self.expr(e.left)
-        pr, r, tr = self.expr(e.right)
+        pl, l, tl = self.unwrap(*self.expr(e.left))
+        pr, r, tr = self.unwrap(*self.expr(e.right))
         pre = pl + pr
         op = e.op
         if tl == "int" and tr == "int":
@@ -320,6 +348,9 @@ class FnTr:
             self.refuse(e, "chained comparison")
         pl, l, tl = self.expr(e.left)
         pr, r, tr = self.expr(e.comparators[0])
+        if not isinstance(e.ops[0], (ast.Is, ast.IsNot)):
+            pl, l, tl = self.unwrap(pl, l, tl)
+            pr, r, tr = self.unwrap(pr, r, tr)
         pre = pl + pr
         op = e.ops[0]
         if tl == "int" and tr == "int":
@@ -426,6 +457,8 @@ class FnTr:
         if not isinstance(f, ast.Name):
             self.refuse(e, "call target")
         fn = f.id
+        if fn in ("hasattr", "getattr") and self.module is not None:
+            return self.stat_attr(e)
         if fn in ("pack", "unpack") and args and isinstance(args[0], ast.Constant):
             fmt = args[0].value
             tag = {"B": "B", "<L": "L", "<Q": "Q"}.get(fmt)
@@ -522,6 +555,15 @@ class FnTr:
                 pre += p
                 vs.append(v)
             return pre, "([%s] : ppath)" % "; ".join(vs), "path"
+        if isinstance(f.value, ast.Name) and f.value.id == "self" and self.kind == "method":
+            return self.selfcall(e)
+        if d is not None and d.startswith("stat.") and "stat" not in self.ty and f.attr in STAT_FUNCTIONS and len(args) == 1:
+            fn, rt = STAT_FUNCTIONS[f.attr]
+            p, v, t = self.unwrap(*self.expr(args[0]))
+            if t != "int":
+                self.refuse(e, "stat.%s argument type %s" % (f.attr, t))
+            t1 = self.fresh()
+            return p + ["do %s <- %s %s;" % (t1, fn, v)], t1, rt
         p, v, t = self.expr(f.value)
         if t == "str" and f.attr in ("startswith", "endswith") and len(args) == 1:
             pa, a, ta = self.expr(args[0])
@@ -531,6 +573,38 @@ class FnTr:
         if t == "path" and f.attr == "is_absolute" and not args:
             return p, "(pp_is_absolute %s)" % v, "bool"
         self.refuse(e, "method %s of %s" % (f.attr, t))
+
+    def selfcall(self, e):
+        """self.m(...) inside a method: the property table of the spec, or another translated method of the class"""
+        f, args = e.func, e.args
+        props = self.spec.get("self_props", {})
+        if f.attr == "_get_property" and len(args) == 1 and isinstance(args[0], ast.Constant) and args[0].value in props:
+            pn = props[args[0].value]
+            return [], pn, self.spec["selfargs"][pn]
+        callee = WAVE2.get("%s.%s" % (self.spec.get("cls"), f.attr))
+        if callee is None or callee.get("selfargs") != self.spec.get("selfargs"):
+            self.refuse(e, "method self.%s" % f.attr)
+        if len(args) != len(callee["args"]):
+            self.refuse(e, "arity of self.%s" % f.attr)
+        pre, vs = [], list(self.spec["selfargs"])
+        for a, (an, at) in zip(args, callee["args"].items()):
+            p, v, t = self.unwrap(*self.expr(a)) if at == "int" else self.expr(a)
+            if t != at:
+                self.refuse(e, "argument type of self.%s.%s" % (f.attr, an))
+            pre += p
+            vs.append(v)
+        t1 = self.fresh()
+        return pre + ["do %s <- %s %s;" % (t1, callee["coqname"], " ".join(vs))], t1, callee["ret"]
+
+    def stat_attr(self, e):
+        """hasattr(stat, "NAME") / getattr(stat, "NAME") for the names of STAT_CONSTANTS"""
+        fn, args = e.func.id, e.args
+        if len(args) == 2 and isinstance(args[0], ast.Name) and args[0].id == "stat" and "stat" not in self.ty \
+                and isinstance(args[1], ast.Constant) and args[1].value in STAT_CONSTANTS and not e.keywords:
+            if fn == "hasattr":
+                return [], "true", "bool"
+            return [], args[1].value, "int"
+        self.refuse(e, fn + " form")
 
     # ---------------- statements ----------------
     def assigned(self, stmts):
@@ -588,6 +662,10 @@ class FnTr:
             if st.value is None:
                 return self.ret("tt")
             p, v, t = self.expr(st.value)
+            if self.module is not None and self.retty == "optint" and t == "int":
+                v, t = "(Some %s)" % v, "optint"
+            if self.module is not None and self.retty == "optint" and t == "nonetype":
+                v, t = "None", "optint"
             if self.module is not None and t != self.retty:
                 self.refuse(st, "return of %s in a function returning %s" % (t, self.retty))
             return p + self.ret(v)
@@ -658,6 +736,22 @@ class FnTr:
                 p, v, t = self.expr(c)
                 return p + cont()
             self.refuse(st, "expression statement")
+        if isinstance(st, ast.If) and self.module is not None and isinstance(st.test, ast.Compare) \
+                and len(st.test.ops) == 1 and isinstance(st.test.ops[0], (ast.Is, ast.IsNot)) \
+                and isinstance(st.test.comparators[0], ast.Constant) and st.test.comparators[0].value is None:
+            # `if x is None:` / `if x is not None:` on an Optional[int] variable: a match that rebinds x as the int
+            x = st.test.left
+            if not (isinstance(x, ast.Name) and self.ty.get(x.id) == "optint"):
+                self.refuse(st, "`is None` test on something that is not an Optional[int] variable")
+            none_body, some_body = (st.body, st.orelse) if isinstance(st.test.ops[0], ast.Is) else (st.orelse, st.body)
+            saved = dict(self.ty)
+            a = self.block(none_body, cont)
+            self.ty = dict(saved)
+            self.ty[x.id] = "int"
+            b = self.block(some_body, cont)
+            self.ty = dict(saved)
+            return ["match %s with" % x.id, "| None =>"] + ["  " + y for y in a] + ["| Some %s =>" % x.id] + \
+                ["  " + y for y in b] + ["end"]
         if isinstance(st, ast.If):
             p, c = self.test(st.test)
             # the continuation is duplicated into both branches (functions are small)
@@ -774,16 +868,26 @@ class FnTr:
         if self.kind in ("reader", "writer"):
             self.filevar = params[0]
             params = params[1:]
+        if self.kind == "method":
+            if not params or params[0] != "self":
+                self.refuse(node, "method without self")
+            params = params[1:]
+        if self.module is not None and (node.args.vararg or node.args.kwarg or node.args.kwonlyargs or node.args.posonlyargs):
+            self.refuse(node, "parameter kinds")
         if list(self.argtys.keys()) != params:
             self.refuse(node, "parameter list %r differs from the whitelist %r" % (params, list(self.argtys)))
         sig = " ".join("(%s : %s)" % (p, coq_ty(self.argtys[p])) for p in params)
+        if self.kind == "method":
+            for p, t in self.spec["selfargs"].items():
+                self.ty[p] = t
+            sig = " ".join(["(%s : %s)" % (p, coq_ty(t)) for p, t in self.spec["selfargs"].items()] + ([sig] if sig else []))
         if self.kind == "reader":
             head = "Definition %s (inp : bytes) %s : res (%s * bytes) :=" % (self.name, sig, coq_ty(self.retty))
         elif self.kind == "writer":
             head = "Definition %s %s : res bytes :=\n  let out : bytes := [] in" % (self.name, sig)
         else:
             rt = coq_ty(self.retty)
-            head = "Definition %s %s : res %s :=" % (self.spec.get("coqname", self.name), sig,
+            head = "Definition %s %s : res %s :=" % (self.spec.get("coqname", self.name.split(".")[-1]), sig,
                                                      "(%s)" % rt if " " in rt and not rt.startswith("(") else rt)
         body = self.block(node.body, lambda: self.ret("tt"))
         for x in body:
@@ -831,8 +935,10 @@ def write_if_changed(path, text):
 
 def placeholder(name, spec):
     """definition emitted for a refused second-wave function: same signature, always Err"""
-    sig = " ".join("(%s : %s)" % (p, coq_ty(t)) for p, t in spec["args"].items())
-    return "Definition %s %s : res %s :=\n  Err EOther." % (spec.get("coqname", name), sig, coq_ty(spec["ret"]))
+    sig = " ".join("(%s : %s)" % (p, coq_ty(t)) for p, t in list(spec.get("selfargs", {}).items()) + list(spec["args"].items()))
+    rt = coq_ty(spec["ret"])
+    return "Definition %s %s : res %s :=\n  Err EOther." % (spec.get("coqname", name.split(".")[-1]), sig,
+                                                           "(%s)" % rt if " " in rt and not rt.startswith("(") else rt)
 
 
 def main():
